@@ -106,12 +106,28 @@ def translate():
         return "[" + ";".join(str(b) for b in s.encode()) + "]%N"
 
     lines = ["(* GENERATED by props/c20.py:translate from /repo/command/src/config.rs — do not edit *)",
-             "From Coq Require Import List NArith ZArith.", "Import ListNotations.", ""]
+             "From Coq Require Import List NArith ZArith.", "From SV Require Import Common.Tok.", "Import ListNotations.", "Open Scope Z_scope.", ""]
     for k, v in vals.items():
         lines.append("Definition %s : Z := %d." % (k, v))
     lines.append("Definition default_sticky_name : list N := %s." % bl(sticky))
     lines.append("Definition default_alpn : list (list N) := [%s]." % "; ".join(bl(a) for a in alpn))
     lines.append("Definition default_weight : Z := 100.")
+    # listener extension defaults: x_real_ip flags, answers, tls versions, cipher list, tls1.3 tickets
+    m = re.search(r'pub const DEFAULT_CIPHER_LIST: \[&str; \d+\] = \[(.*?)\];', src, re.S)
+    ciphers = re.findall(r'"([^"]+)"', re.sub(r"//[^\n]*", "", m.group(1))) if m else []
+    if not m:
+        fails.append("config.rs: DEFAULT_CIPHER_LIST not found")
+    tickets = const("DEFAULT_SEND_TLS_13_TICKETS", 4)
+    proto = open(os.path.join(vlib.REPO, "command/src/command.proto")).read()
+    v12 = re.search(r"TLS_V1_2 = (\d+);", proto); v13 = re.search(r"TLS_V1_3 = (\d+);", proto)
+    if not (v12 and v13) or "None => vec![TlsVersion::TlsV12 as i32, TlsVersion::TlsV13 as i32]" not in src:
+        fails.append("config.rs: the default TLS versions of an HTTPS listener are no longer [TLS 1.2, TLS 1.3]")
+    vs = [int(v12.group(1)) if v12 else 4, int(v13.group(1)) if v13 else 5]
+    if "elide_x_real_ip: Some(self.elide_x_real_ip.unwrap_or(false))" not in src or "send_x_real_ip: Some(self.send_x_real_ip.unwrap_or(false))" not in src:
+        fails.append("config.rs: elide_x_real_ip / send_x_real_ip no longer default to false")
+    lines.append("Definition default_ext_http : list tok := [TN 0; TN 0; TN 0; TN 0; TN 0; TN (-1)].")
+    lines.append("Definition default_ext_https : list tok := [TN 0; TN 0; TN 0; TN %d; %s; TN %d; %s; TN %d]."
+                 % (len(vs), "; ".join("TN %d" % v for v in vs), len(ciphers), "; ".join("TB " + bl(c) for c in ciphers), tickets))
     vlib.write_if_changed(os.path.join(vlib.COQ, "C20", "Gen.v"), "\n".join(lines) + "\n")
     return fails
 
@@ -147,6 +163,25 @@ class Lst:
         # strict_sni_binding, sozu_id_header
         self.pay = [None] * 8
         self.proto_text = None
+        self.elide = None; self.send = None; self.answers = None
+        self.tls_versions = None; self.cipher_list = None; self.tickets = None
+
+    def ext(self):
+        """expected extension tokens of the built listener (documented defaults filled in)"""
+        if self.proto not in (0, 1):
+            return []
+        o = [int(bool(self.elide)), int(bool(self.send))]
+        ans = sorted((k, v) for k, v in (self.answers or {}).items() if v != "")   # load_answers skips empty bodies
+        o.append(len(ans))
+        for k, v in ans:
+            o += [k.encode(), v.encode()]
+        if self.proto == 0:
+            return o + [0, 0, -1]
+        vs = [TLSV[v] for v in self.tls_versions] if self.tls_versions is not None else [4, 5]
+        cl = self.cipher_list if self.cipher_list is not None else DEFAULT_CIPHERS
+        o += [len(vs)] + vs + [len(cl)] + [c.encode() for c in cl]
+        o.append(4 if self.tickets is None else self.tickets)
+        return o
 
     def op(self):
         o = ["l", self.addr.encode(), self.proto, N(self.expect), S(self.public), N(self.ft), N(self.bt), N(self.ct), N(self.rt),
@@ -158,9 +193,18 @@ class Lst:
             o += [a.encode() for a in self.alpn]
         o.append(len(self.pay))
         o += [S(p) if isinstance(p, str) else N(p) for p in self.pay]
+        e = self.ext()
+        o.append(len(e))
+        o += e
         return o
 
 
+TLSV = {"TLS_V12": 4, "TLS_V13": 5, "TLS_V11": 3}
+# bin/config.toml, doc/configure.md
+DEFAULT_CIPHERS = ["TLS13_AES_256_GCM_SHA384", "TLS13_AES_128_GCM_SHA256", "TLS13_CHACHA20_POLY1305_SHA256",
+                   "TLS_ECDHE_ECDSA_WITH_AES_256_GCM_SHA384", "TLS_ECDHE_ECDSA_WITH_AES_128_GCM_SHA256",
+                   "TLS_ECDHE_ECDSA_WITH_CHACHA20_POLY1305_SHA256", "TLS_ECDHE_RSA_WITH_AES_256_GCM_SHA384",
+                   "TLS_ECDHE_RSA_WITH_AES_128_GCM_SHA256", "TLS_ECDHE_RSA_WITH_CHACHA20_POLY1305_SHA256"]
 PAY_L = ["h2_max_rst_stream_per_window", "h2_max_concurrent_streams", "h2_initial_connection_window",
          "h2_max_header_list_size", "h2_stream_idle_timeout_seconds", "h2_max_rst_stream_lifetime",
          "strict_sni_binding", "sozu_id_header"]
@@ -180,6 +224,7 @@ class Front:
         self.tags = None
         # redirect, redirect_scheme, required_auth, rewrite_host, rewrite_path, rewrite_port, redirect_template, nheaders
         self.pay = [None, None, None, None, None, None, None, 0]
+        self.headers = []    # (position 1 request / 2 response / 3 both, key, value)
 
     def op(self, cid):
         o = ["f", cid.encode(), self.addr.encode(), S(self.hostname), S(self.path), N(self.kind), S(self.method),
@@ -188,8 +233,12 @@ class Front:
         o.append(len(tags))
         for k, v in tags:
             o += [k.encode(), v.encode()]
-        o.append(len(self.pay))
-        o += [S(p) if isinstance(p, str) else N(p) for p in self.pay]
+        pay = list(self.pay)
+        pay[7] = len(self.headers)
+        for (pos, k, v) in self.headers:
+            pay += [pos, k, v]
+        o.append(len(pay))
+        o += [S(p) if isinstance(p, str) else N(p) for p in pay]
         return o
 
 
@@ -211,6 +260,7 @@ class Clu:
         self.pay = [None] * 9
         self.fronts = []; self.backs = []
         self.proto_text = None
+        self.answers = None; self.hashes = None
 
     def op(self):
         o = ["c", self.id.encode(), self.proto, N(self.sticky), N(self.https_redirect), N(self.send_proxy), N(self.lb), N(self.lm), N(self.http2)]
@@ -219,8 +269,15 @@ class Clu:
         else:
             h = self.hc
             o += [1, h["uri"].encode(), N(h.get("interval")), N(h.get("timeout")), N(h.get("healthy")), N(h.get("unhealthy")), N(h.get("expected"))]
-        o.append(len(self.pay))
-        o += [S(p) if isinstance(p, str) else N(p) for p in self.pay]
+        pay = list(self.pay)
+        ans = sorted((k, v) for k, v in (self.answers or {}).items() if v != "")   # load_answers skips empty bodies
+        pay.append(len(ans))
+        for k, v in ans:
+            pay += [k, v]
+        pay.append(len(self.hashes or []))
+        pay += list(self.hashes or [])
+        o.append(len(pay))
+        o += [S(p) if isinstance(p, str) else N(p) for p in pay]
         return o
 
 
@@ -247,7 +304,9 @@ class Decl:
 # TOML printer (the documented grammar, doc/configure.md + bin/config.toml)
 
 def q(s):
-    return '"' + s.replace("\\", "\\\\").replace('"', '\\"') + '"'
+    out = s.replace("\\", "\\\\").replace('"', '\\"')
+    out = out.replace("\r", "\\r").replace("\n", "\\n").replace("\t", "\\t")
+    return '"' + out + '"'
 
 
 def tb(v):
@@ -296,6 +355,12 @@ def toml_of(d):
         for nm, v in zip(PAY_L, l.pay):
             if v is None: continue
             out.append("%s = %s" % (nm, q(v) if isinstance(v, str) else (tb(v) if isinstance(v, bool) else str(v))))
+        if l.elide is not None: out.append("elide_x_real_ip = %s" % tb(l.elide))
+        if l.send is not None: out.append("send_x_real_ip = %s" % tb(l.send))
+        if l.tls_versions is not None: out.append("tls_versions = [%s]" % ", ".join(q(v) for v in l.tls_versions))
+        if l.cipher_list is not None: out.append("cipher_list = [%s]" % ", ".join(q(v) for v in l.cipher_list))
+        if l.tickets is not None: out.append("send_tls13_tickets = %d" % l.tickets)
+        if l.answers is not None: out.append("answers = { %s }" % ", ".join("%s = %s" % (q(k), q(v)) for k, v in sorted(l.answers.items())))
         if l.hsts != -1:
             out.append("hsts = %s" % hsts_inline(l.hsts, l.hsts_age))
     if d.clusters:
@@ -317,6 +382,8 @@ def toml_of(d):
         if p[1] is not None: out.append("retry_after = %d" % p[1])
         if p[2] is not None: out.append("https_redirect_port = %d" % p[2])
         if p[3] is not None: out.append("www_authenticate = %s" % q(p[3]))
+        if c.answers is not None: out.append("answers = { %s }" % ", ".join("%s = %s" % (q(k), q(v)) for k, v in sorted(c.answers.items())))
+        if c.hashes is not None: out.append("authorized_hashes = [%s]" % ", ".join(q(h) for h in c.hashes))
         if c.hc is not None:
             h = c.hc
             parts = ["uri = %s" % q(h["uri"])]
@@ -345,6 +412,8 @@ def toml_of(d):
             if pp[4] is not None: parts.append("rewrite_path = %s" % q(pp[4]))
             if pp[5] is not None: parts.append("rewrite_port = %d" % pp[5])
             if pp[6] is not None: parts.append("redirect_template = %s" % q(pp[6]))
+            if f.headers:
+                parts.append("headers = [%s]" % ", ".join("{ position = %s, key = %s, value = %s }" % (q(["", "request", "response", "both"][p_]), q(k), q(v)) for (p_, k, v) in f.headers))
             if f.hsts != -1: parts.append("hsts = %s" % hsts_inline(f.hsts, f.hsts_age))
             out.append("  { %s }," % ", ".join(parts))
         out.append("]")
@@ -431,7 +500,14 @@ class Gen:
             for i in range(6):
                 l.pay[i] = self.opt(0.15, lambda: r.choice([1, 50, 100, 1000, 65536, 1048576]))
             l.pay[7] = self.opt(0.15, lambda: r.choice(["X-Edge-Id", "Sozu-Id"]))
+        if proto in (0, 1):
+            l.elide = r.choice([None, None, True, False]); l.send = r.choice([None, None, True, False])
+            if r.random() < 0.2:
+                l.answers = dict(r.sample([("404", "nothing here"), ("503", "HTTP/1.1 503 Service Unavailable\r\n\r\n"), ("502", "")], r.randint(0, 2)))
         if proto == 1:
+            l.tls_versions = r.choice([None, None, ["TLS_V13"], ["TLS_V12", "TLS_V13"], ["TLS_V12"]])
+            l.cipher_list = r.choice([None, None, None, DEFAULT_CIPHERS[:3], [DEFAULT_CIPHERS[4]]])
+            l.tickets = r.choice([None, None, 0, 2, 4])
             l.alpn = r.choice([None, None, [], ["h2", "http/1.1"], ["http/1.1"], ["h2"], ["http/1.1", "h2"], ["h2", "h2", "http/1.1"]])
             if l.alpn == ["h2"]:
                 l.disable_http11 = r.choice([None, True, False])
@@ -511,6 +587,8 @@ class Gen:
         p[2] = self.opt(0.15, lambda: r.choice([True, False]))
         p[3] = self.opt(0.1, lambda: "new.example.com"); p[4] = self.opt(0.1, lambda: "/new$PATH[1]")
         p[5] = self.opt(0.1, lambda: r.choice([8443, 443])); p[6] = self.opt(0.05, lambda: "moved")
+        if r.random() < 0.15:
+            f.headers = r.sample([(1, "X-Edge", "1"), (2, "Server", ""), (3, "X-Both", "a b"), (2, "Cache-Control", "no-store")], r.randint(1, 2))
         c.fronts.append(f)
         return f
 
@@ -535,6 +613,10 @@ class Gen:
         c.http2 = self.opt(0.3, lambda: r.choice([True, False]))
         c.pay[0] = self.opt(0.2, lambda: r.choice([0, 5, 100])); c.pay[1] = self.opt(0.2, lambda: r.choice([0, 30]))
         c.pay[2] = self.opt(0.1, lambda: 8443); c.pay[3] = self.opt(0.1, lambda: "realm one")
+        if r.random() < 0.15:
+            c.answers = dict(r.sample([("503", "down"), ("429", "slow down"), ("401", "")], r.randint(0, 2)))
+        if r.random() < 0.15:
+            c.hashes = r.sample(["admin:" + "ab" * 32, "ops:" + "0f" * 32], r.randint(0, 2))
         if r.random() < 0.2:
             c.hc = dict(uri=r.choice(["/", "/health", "/status?x=1"]))
             for k in ("interval", "timeout", "healthy", "unhealthy"):
@@ -563,7 +645,7 @@ class Gen:
                 f = Front(t, ca)
                 if r.random() < 0.3:
                     f.tags = dict(r.sample([("owner", "John"), ("uuid", "3f74"), ("env", "prod")], r.randint(0, 2)))
-                if any(x.addr == f.addr and (x.tags or {}) == (f.tags or {}) for x in c.fronts):
+                if any(x.addr == f.addr for x in c.fronts):      # one frontend per (cluster, address)
                     continue
                 c.fronts.append(f)
             if udp and r.random() < 0.7:
@@ -769,8 +851,7 @@ def violate(rng, which):
             cs = [c for c in d.clusters if c.proto == 1 and c.fronts]
             if not cs: continue
             c = r.choice(cs); f = r.choice(c.fronts)
-            f2 = Front(f.toml_addr, f.addr); f2.tags = f.tags
-            if not f.tags and r.random() < 0.5: f2.tags = {} if f.tags is None else None
+            f2 = Front(f.toml_addr, f.addr); f2.tags = r.choice([f.tags, None, {}, {"env": "prod"}])
             c.fronts.insert(r.randrange(len(c.fronts) + 1), f2)
         elif which == "duplicate-backend":
             cs = [c for c in d.clusters if c.backs]
